@@ -24,6 +24,16 @@ def iv_at_zuc_new(cx, fn):
     if len(calls) != 1 or len(calls[0][1]) != 2:
         return None, None
     key, iv = calls[0][1]
+    if isinstance(iv, list):
+        # byte k of `count.to_be_bytes()` is (count >> 8(3-k)) as u8; x ^ 0 is x
+        import re as _re
+        def nb(t):
+            if not isinstance(t, str):
+                return t
+            t = _re.sub(r'to_be_bytes\(\$count\)\.([0-3])', lambda m_: {0: '(Shr($count, 24) as u8)', 1: '(Shr($count, 16) as u8)', 2: '(Shr($count, 8) as u8)', 3: '($count as u8)'}[int(m_.group(1))], t)
+            m_ = _re.match(r'^BitXor\(0, (.*)\)$', t)
+            return m_.group(1) if m_ else t
+        iv = [nb(x) for x in iv]
     return (iv if isinstance(iv, list) and len(iv) == 16 else None), (key if isinstance(key, str) else None)
 
 
